@@ -160,10 +160,13 @@ def _guard_live(ctx, fn, cls, bb, idx=None):
 
 
 def _guards_at(ctx, fn, cls, bb, idx):
+    """The holds of lock class `cls` a program point may be under, as acquisition sites: two points are in one critical
+    section only if they share a site (a guard that is released and taken again is another section)."""
     H = ctx.held(fn)
     n = len(fn.blocks[bb]['stmts'])
-    s = H.before.get((bb, min(idx, n)), frozenset()) if idx != 'term' else (H.at_term.get(bb, frozenset()) | H.before.get((bb, n), frozenset()))
-    return frozenset(l for l in s if H.guards[l] == cls)
+    if idx != 'term':
+        return H.holds_before(bb, min(idx, n), cls)
+    return H.holds_at_term(bb, cls) | H.holds_before(bb, n, cls)
 
 
 def _flows_to_wake(ctx, fn, start_local, start_bb):
